@@ -123,6 +123,9 @@ func verifyUnits(g *Gen, cts []*Contract, cfg SolverCfg) []*UnitResult {
 	return results
 }
 
+// exitCovers adds one reachability check per return statement (thorough tier and development runs).
+var exitCovers bool
+
 func main() {
 	repo := flag.String("repo", "/repo", "repository root")
 	specDir := flag.String("spec", "/verif/spec", "spec directory")
@@ -156,6 +159,7 @@ func main() {
 	if *tier == "thorough" {
 		cfg = SolverCfg{QuickMs: 20000, FallbackMs: 60000, WorkDir: *work, Cross: true}
 	}
+	exitCovers = *tier == "thorough" || os.Getenv("GOVC_EXITCOVER") != "" || (*verbose && *units != "")
 	if *dumpSSA != "" {
 		for _, ct := range g.specs.Contracts {
 			if shortUnit(ct.Key()) == *dumpSSA {
@@ -202,7 +206,7 @@ func main() {
 
 func obOK(ob *Obligation) bool {
 	if ob.Cover {
-		if ob.Info || (ob.CoverPre != nil && ob.CoverPre.Result != "sat") {
+		if ob.Info || ob.ExitCover || (ob.CoverPre != nil && ob.CoverPre.Result != "sat") {
 			return true
 		}
 		return ob.Result == "sat" || ob.Result == "unknown" || ob.Result == "timeout"
